@@ -16,7 +16,11 @@ var collSQL = vkit.NewCollector("C09", "TestPersistSQLite", rule)
 var collDS = vkit.NewCollector("C09", "TestPersistDurable", rule)
 var collEnum = vkit.NewCollector("C09", "TestEnumOptionOrders", "complete enumeration: every order of every subset of the five hook-affecting options (before, before-context, after, after-context, observability) together with WithStore = 1631 option lists, each run with three publishes of different shapes on a memory store; same oracle.")
 
+var collAbort = vkit.NewCollector("C09", "TestAbortedPublish", "a persistent bus (memory store) with a drawn permutation of WithStore, the four publish hooks, observability and a panic handler (option, SetPanicHandler or none); one of the hooks panics for a drawn subset of 1-12 events published by one or 2-4 goroutines (every Publish call is wrapped in recover); a synchronous and optionally an asynchronous handler read the store while they run. Oracle: a handler that receives an event finds exactly one record of it; events whose hooks did not panic have one record and one delivery; an event rejected by a before hook has at most one record and is delivered only if recorded; one rejected by an after hook is recorded and delivered once; offsets increase. Non-trivial = some publishes aborted and some not.")
+
 func TestMain(m *testing.M) { vkit.Main(m) }
+
+func TestAbortedPublish(t *testing.T) { vkit.Check(t, collAbort, GenAbort, RunAbort) }
 
 func TestPersistSeq(t *testing.T)     { vkit.Check(t, collSeq, Gen("memory", false), Run) }
 func TestPersistConc(t *testing.T)    { vkit.Check(t, collConc, Gen("memory", true), Run) }
@@ -36,5 +40,5 @@ func TestEnumOptionOrders(t *testing.T) {
 
 func TestReplay(t *testing.T) {
 	r := vkit.NeedReplay(t)
-	_ = vkit.ReplayCase(t, r, collSeq, Run) || vkit.ReplayCase(t, r, collConc, Run) || vkit.ReplayCase(t, r, collSQL, Run) || vkit.ReplayCase(t, r, collDS, Run) || vkit.ReplayCase(t, r, collEnum, Run)
+	_ = vkit.ReplayCase(t, r, collSeq, Run) || vkit.ReplayCase(t, r, collConc, Run) || vkit.ReplayCase(t, r, collSQL, Run) || vkit.ReplayCase(t, r, collDS, Run) || vkit.ReplayCase(t, r, collEnum, Run) || vkit.ReplayCase(t, r, collAbort, RunAbort)
 }
